@@ -147,6 +147,9 @@ func shouldCheckAgainstZero(ctx *MethodContext, s, t *xtype.Type, isUpdate, call
 	switch {
 	case !ctx.Conf.UpdateTarget && !isUpdate:
 		return false
+	case s == nil:
+		// map TARGET | FUNC without source: there is no value to compare
+		return false
 	case s.Struct && ctx.Conf.IgnoreStructZeroValueField:
 		return true
 	case s.Basic && ctx.Conf.IgnoreBasicZeroValueField:
